@@ -247,6 +247,7 @@ pub fn run_c01(ctx: &Ctx) -> Outcome {
         "reference semantics = CPython pickletools.dis flat stack (MARK is an ordinary element), not a real unpickler".into(),
         "refpvm opcode table equals pickletools.opcodes of the installed CPython (checked at setup and by `pfverif selftest`)".into(),
     ];
+    history_shards(ctx, &mut out, ctx.n(2_000, 40_000));
     out
 }
 
@@ -310,6 +311,7 @@ pub fn run_c02(ctx: &Ctx) -> Outcome {
             out.inconclusive = Some("a required class (memo>=256 / memo mutator at rate 1) was not produced".into());
         }
     }
+    history_shards(ctx, &mut out, ctx.n(1_500, 30_000));
     out
 }
 
@@ -349,6 +351,7 @@ pub fn run_c03(ctx: &Ctx) -> Outcome {
     p.size = SizeMode::WithLarge;
     drive(ctx, &mut out, 1, &p, ctx.n(60_000, 3_000_000), want, judge_c03, None);
     crate::props::tree::run_tree(ctx, &mut out, ctx.n(4, 5) as usize, crate::props::tree::TreeOracle::C03);
+    history_shards(ctx, &mut out, ctx.n(2_000, 40_000));
     out
 }
 
@@ -402,6 +405,7 @@ pub fn run_c04(ctx: &Ctx) -> Outcome {
     ptxt.need_mutator = true;
     ptxt.protocols = vec![0, 0, 1, 2, 4, 5];
     drive(ctx, &mut out, 2, &ptxt, ctx.n(20_000, 1_000_000), Want::default(), judge_c04, None);
+    history_shards(ctx, &mut out, ctx.n(2_000, 40_000));
     out
 }
 
@@ -458,6 +462,7 @@ pub fn run_c05(ctx: &Ctx) -> Outcome {
     let mut tiny = Profile::safe();
     tiny.size = SizeMode::Tiny;
     drive(ctx, &mut out, 2, &tiny, ctx.n(20_000, 500_000), Want::default(), judge_c05, None);
+    history_shards(ctx, &mut out, ctx.n(3_000, 60_000));
     out
 }
 
@@ -467,6 +472,20 @@ pub fn run_c05(ctx: &Ctx) -> Outcome {
 
 pub fn judge_c06(c: &GenCase, a: &Analysis, st: &mut Stats) -> Result<bool, Fail> {
     let Ok(ops) = &a.ops else {
+        // the stream does not decode (C04's business) - but for P>=4 bytes 0..2 are PROTO, so byte 2 is an
+        // opcode position: a FRAME there must still carry its 8-byte length and that length must be exact
+        let out = a.output().unwrap();
+        if c.protocol >= 4 && out.len() >= 3 && out[0] == t::PROTO && out[2] == t::FRAME {
+            if out.len() < 11 {
+                return Err(Fail::new("frame-truncated", format!("FRAME opcode at offset 2 of a {}-byte output has no 8-byte length", out.len())));
+            }
+            let mut w = [0u8; 8];
+            w.copy_from_slice(&out[3..11]);
+            let declared = u64::from_le_bytes(w);
+            if declared != (out.len() - 11) as u64 {
+                return Err(Fail::new("frame-length", format!("FRAME length {} but {} bytes follow its argument (stream is otherwise undecodable)", declared, out.len() - 11)));
+            }
+        }
         st.label("undecodable(skipped; C04 decides)");
         return Ok(false);
     };
@@ -527,6 +546,7 @@ pub fn run_c06(ctx: &Ctx) -> Outcome {
     big.protocols = vec![4, 5];
     big.size = SizeMode::Range(6000, 14000);
     drive(ctx, &mut out, 3, &big, ctx.n(400, 20_000), Want::default(), judge_c06, None);
+    history_shards(ctx, &mut out, ctx.n(2_000, 40_000));
     out
 }
 
@@ -577,6 +597,7 @@ pub fn run_c10(ctx: &Ctx) -> Outcome {
     let mut p = Profile::full();
     p.rate = RateMode::Wild;
     drive(ctx, &mut out, 1, &p, ctx.n(60_000, 2_000_000), Want::default(), judge_c10, None);
+    history_shards(ctx, &mut out, ctx.n(3_000, 60_000));
     out
 }
 
@@ -688,6 +709,7 @@ pub fn run_c11(ctx: &Ctx) -> Outcome {
         "range_ends".into(),
         json!({"T==min": out.stats.get("T == min (lower end hit)"), "T==max-1": out.stats.get("T == max-1 (upper end hit)"), "T==max": out.stats.get("T == max")}),
     );
+    history_shards(ctx, &mut out, ctx.n(2_000, 40_000));
     out
 }
 
@@ -723,3 +745,169 @@ pub fn judge_for(prop: &str) -> Option<(Judge, Want)> {
 
 #[allow(dead_code)]
 fn _unused(_: &analysis::Analysis) {}
+
+
+// ------------------------------------------------------------------------------------------
+// process-history shards
+// ------------------------------------------------------------------------------------------
+
+/// the profile a property's shard uses (its main generated domain)
+pub fn shard_profile(prop: &str) -> Profile {
+    let mut p = match prop {
+        "C01" | "C02" | "C03" | "C05" | "C17" => Profile::safe(),
+        _ => Profile::full(),
+    };
+    if matches!(prop, "C04" | "C06" | "C10" | "C11") {
+        p.rate = RateMode::Wild;
+    }
+    p
+}
+
+/// Body of `pfverif shard <prop> <first_protocol> <cases>`: a *fresh process* whose first generations
+/// use one chosen protocol with every opt-in feature switched on, followed by a batch of ordinary
+/// cases judged by the property's oracle. Catches process-wide state (statics, caches keyed too
+/// weakly) that is initialised by the first generator of the process and then leaks into later
+/// generators with another protocol or other flags.
+pub fn shard_child(ctx: &Ctx, first_protocol: u8, cases: u64) -> i32 {
+    for i in 0..6u64 {
+        let mut c = GenCase::default_for(first_protocol, i);
+        c.allow_ext = true;
+        c.allow_buffer = true;
+        c.min_opcodes = 200;
+        c.max_opcodes = 400;
+        if i % 2 == 1 {
+            c.mutators = crate::case::ALL_MUTK.to_vec();
+            c.rate = crate::case::RateSpec::builder(1.0);
+        }
+        if i >= 4 {
+            c.entropy = Entropy::Bytes(vec![0x5a; 600]);
+        }
+        let _ = c.run();
+    }
+    let profile = shard_profile(&ctx.prop);
+    let mut out = Outcome::new("");
+    if ctx.prop == "C17" {
+        let r = run_prop(ctx, 900 + first_protocol as u64, cases, || case::gencase(&profile), |c: &GenCase, st: &mut Stats| crate::props::c17::check_case(ctx, c, st));
+        out.absorb(r);
+    } else if let Some((judge, want)) = judge_for(&ctx.prop) {
+        drive(ctx, &mut out, 900 + first_protocol as u64, &profile, cases, want, judge, None);
+    } else {
+        return 2;
+    }
+    let res = json!({
+        "evaluations": out.stats.evaluations,
+        "nontrivial": out.stats.nontrivial.len(),
+        "excluded_known": out.stats.excluded_known,
+        "violation": out.violation.as_ref().map(|v| json!({"sig": v.fail.sig, "msg": v.fail.msg, "case": v.case, "output": v.fail.output.as_ref().map(|o| util::hex(o))})),
+    });
+    println!("SHARD-RESULT {}", res);
+    0
+}
+
+/// run six shards (first protocol 5,4,3,2,1,0) as child processes and fold their results in
+pub fn history_shards(ctx: &Ctx, out: &mut Outcome, cases_per_shard: u64) {
+    if out.failed() {
+        return;
+    }
+    let exe = util::self_exe();
+    let children: Vec<_> = (0u8..=5)
+        .rev()
+        .map(|p| {
+            (
+                p,
+                std::process::Command::new(&exe)
+                    .args(["shard", &ctx.prop, &p.to_string(), &cases_per_shard.to_string()])
+                    .env("VERIF_SEED", ctx.seed.to_string())
+                    .env("VERIF_DIR", &ctx.verif_dir)
+                    .env("VERIF_REPO", &ctx.repo_dir)
+                    .stdout(std::process::Stdio::piped())
+                    .stderr(std::process::Stdio::null())
+                    .spawn(),
+            )
+        })
+        .collect();
+    let mut total = 0u64;
+    for (p, ch) in children {
+        let Ok(ch) = ch else {
+            out.inconclusive = Some("cannot spawn a history shard".into());
+            return;
+        };
+        let Ok(o) = ch.wait_with_output() else {
+            out.inconclusive = Some("history shard failed".into());
+            return;
+        };
+        let txt = String::from_utf8_lossy(&o.stdout);
+        let Some(line) = txt.lines().find_map(|l| l.strip_prefix("SHARD-RESULT ")) else {
+            out.inconclusive = Some(format!("history shard (first protocol {}) gave no result (status {})", p, o.status));
+            return;
+        };
+        let v: serde_json::Value = serde_json::from_str(line).unwrap_or(serde_json::Value::Null);
+        total += v["evaluations"].as_u64().unwrap_or(0);
+        if let Some(viol) = v.get("violation").filter(|x| !x.is_null()) {
+            if out.violation.is_none() {
+                let mut f = Fail::new(
+                    viol["sig"].as_str().unwrap_or("?"),
+                    format!("[fresh process whose first generations used protocol {} with all opt-in features on] {}", p, viol["msg"].as_str().unwrap_or("?")),
+                );
+                f.output = viol["output"].as_str().and_then(util::unhex);
+                out.violation = Some(Violation { fail: f, case: json!({"shard": {"first_protocol": p, "case": viol["case"]}}) });
+            }
+        }
+    }
+    out.stats.evaluations += total;
+    out.stats.add("process-history shards: cases judged in 6 fresh processes primed with protocol 5..0", total);
+}
+
+/// `pfverif shard-one <prop> <first_protocol> <casefile>`: prime like a shard, then judge one case
+pub fn shard_one(ctx: &Ctx, first_protocol: u8, path: &str) -> i32 {
+    for i in 0..6u64 {
+        let mut c = GenCase::default_for(first_protocol, i);
+        c.allow_ext = true;
+        c.allow_buffer = true;
+        c.min_opcodes = 200;
+        c.max_opcodes = 400;
+        if i % 2 == 1 {
+            c.mutators = crate::case::ALL_MUTK.to_vec();
+            c.rate = crate::case::RateSpec::builder(1.0);
+        }
+        if i >= 4 {
+            c.entropy = Entropy::Bytes(vec![0x5a; 600]);
+        }
+        let _ = c.run();
+    }
+    let Ok(b) = std::fs::read(path) else { return 2 };
+    let Ok(v) = serde_json::from_slice::<serde_json::Value>(&b) else { return 2 };
+    let mut strict = ctx.clone();
+    strict.strict = true;
+    match crate::replay::judge_value(&strict, &v) {
+        Ok(()) => 0,
+        Err(f) if f.sig.starts_with("harness:") => 2,
+        Err(f) => {
+            println!("SHARD-FAIL {}", json!({"sig": f.sig, "msg": f.msg}));
+            1
+        }
+    }
+}
+
+pub fn replay_shard(ctx: &Ctx, sh: &serde_json::Value) -> Result<(), Fail> {
+    let p = sh["first_protocol"].as_u64().unwrap_or(5) as u8;
+    let path = format!("{}/work/shard-one-{}.json", ctx.verif_dir, std::process::id());
+    std::fs::write(&path, serde_json::to_vec(&sh["case"]).unwrap()).map_err(|e| Fail::new("harness:io", e.to_string()))?;
+    let o = std::process::Command::new(util::self_exe())
+        .args(["shard-one", &ctx.prop, &p.to_string(), &path])
+        .env("VERIF_DIR", &ctx.verif_dir)
+        .env("VERIF_REPO", &ctx.repo_dir)
+        .output()
+        .map_err(|e| Fail::new("harness:spawn", e.to_string()))?;
+    let _ = std::fs::remove_file(&path);
+    match o.status.code() {
+        Some(0) => Ok(()),
+        Some(1) => {
+            let txt = String::from_utf8_lossy(&o.stdout);
+            let v: serde_json::Value = txt.lines().find_map(|l| l.strip_prefix("SHARD-FAIL ")).and_then(|l| serde_json::from_str(l).ok()).unwrap_or(serde_json::Value::Null);
+            let mut st = Stats::default();
+            ctx.fail(&mut st, Fail::new(v["sig"].as_str().unwrap_or("?"), v["msg"].as_str().unwrap_or("?")))
+        }
+        _ => Err(Fail::new("harness:shard", "shard-one child failed")),
+    }
+}
